@@ -74,8 +74,9 @@ def kinds():
         return c
 
     def model(cls):
-        def f(span):
-            m = cls(span, c=0.5, G=10.0)
+        def f(span, shared=None):
+            # `shared`: one caller-owned float64 array handed to several instances (each must take its own copy)
+            m = cls(span, c=0.5, G=10.0 if shared is None else shared)
             return m
         return f
 
@@ -184,7 +185,14 @@ def one_history(ctx, kind, factory, route, rng):
         hist.append(['prefix', name, do(f)])
     cls_before = snap.class_snapshot(type(a))
     if route == 'sibling':
-        b = factory(span_f())
+        if kind in ('model', 'aliased', 'traced', 'mixins') and rng.random() < 0.5:
+            # both siblings are constructed from the *same* input array
+            shared = np.full(len(a.span), 10.0)
+            a = factory(span_f(), shared)
+            b = factory(span_f(), shared)
+            hist.append(['both', 'constructed-from-one-shared-array', 'ok'])
+        else:
+            b = factory(span_f())
         # siblings are only required to be independent, not equal
     else:
         try:
@@ -200,6 +208,12 @@ def one_history(ctx, kind, factory, route, rng):
         if d:
             ctx.violation('copy-not-equal', f'{route} of a {kind} is not observationally equal to the original at {d[:5]}', case)
             return
+    if rng.random() < 0.3:
+        # the same caller-owned array is added as a new variable to both objects
+        arr = np.arange(len(a.span), dtype=float) + 0.5
+        nm = f'SH{rng.randrange(1000)}'
+        r1, r2 = do(lambda: a.add_variable(nm, arr)), do(lambda: b.add_variable(nm, arr))
+        hist.append(['both', 'add-variable-from-one-shared-array', f'{r1}/{r2}'])
     if not identity_sweep(ctx, a, b, case):
         return
     # mutations after the copy, on either side
